@@ -30,7 +30,8 @@ class Cfg:
         key = (path, mode, tuple(sorted((local or {}).keys())))
         if key in self.cache:
             return self.cache[key]
-        summ = S.Summaries(abstract_fields=(mode != "deep"), abstract_group=(mode == "group"), local=local)
+        summ = S.Summaries(abstract_fields=(mode != "deep"), abstract_group=(mode == "group"), local=local,
+                           abstract_glue=(mode not in ("glue", "deep")))
         I = E.Interp(self.prog, summ, opts or {})
         out = I.run(path)
         out.interp = I
@@ -74,10 +75,24 @@ def flows_of(out):
     return out.flows
 
 
+def expand_flows(flows, limit=64):
+    """split flows whose value is a top-level ITE into one flow per leaf (path condition extended)"""
+    out = []
+    work = list(flows)
+    while work:
+        pc, v = work.pop(0)
+        if v.op == "ite" and len(out) + len(work) < limit:
+            work.insert(0, (pc + (Tm.not_(v.args[0]),), v.args[2]))
+            work.insert(0, (pc + (v.args[0],), v.args[1]))
+        else:
+            out.append((pc, v))
+    return out
+
+
 def split_result(rep, cfg, out):
     """for a Result-returning routine: (list of (pc, errvalue), list of (pc, okvalue))"""
     errs, oks, other = [], [], []
-    for pc, v in out.flows:
+    for pc, v in expand_flows(out.flows):
         if v.op == "variant" and v.args[0] == "Err":
             errs.append((pc, v.args[1]))
         elif v.op == "variant" and v.args[0] == "Ok":
